@@ -210,6 +210,12 @@ func PopForce(keys *Keys) (key byte, empty bool) {
 	return key, false
 }
 
+// FedKeys returns the number of keys fed to the stack (by a macro
+// or a command) that have not been used yet.
+func FedKeys(keys *Keys) int {
+	return len(keys.macroKeys)
+}
+
 // MacroKeys returns the keys that have matched a given command, and thus can be recorded
 // as a part of the current macro. This function is different from keys.Caller() in that it
 // won't return keys that have only matched a prefix, to avoid recording them twice.
